@@ -153,14 +153,17 @@ func TestC18(t *testing.T) {
 	nReal := r.N(400, 4000)
 	nSleepB := r.N(1500, 15000)
 	nSleepR := r.N(1500, 8000)
-	total := nDet + nSame + nReal + nSleepB + nSleepR
+	nSleepSlow := r.N(32, 160)
+	total := nDet + nSame + nReal + nSleepB + nSleepR + nSleepSlow
 	r.Each(t, total, 0, nil, func(t *testing.T, c *rt.Case) {
 		rng := c.Rand()
 		switch {
+		case c.I >= nDet+nSame+nReal+nSleepB+nSleepR:
+			c18sleep(t, r, c, true, true)
 		case c.I >= nDet+nSame+nReal+nSleepB:
-			c18sleep(t, r, c, true)
+			c18sleep(t, r, c, true, false)
 		case c.I >= nDet+nSame+nReal:
-			c18sleep(t, r, c, false)
+			c18sleep(t, r, c, false, false)
 			if c.I == nDet+nSame+nReal+3 {
 				r.Sample(map[string]interface{}{"kind": "sleep transaction history", "case": c.Desc})
 			}
